@@ -326,7 +326,7 @@ def run_check(prop, tier, replay=None):
                 c = dict(f["witness"])
                 c["stream"] = "finding:" + f["id"]
                 cases.append(c)
-        cases += list(mod.generate(rng, tier))
+        gen_iter = mod.generate(rng, tier)
 
     stats = {"streams": {}, "outcomes": {}}
     disagreements = []
@@ -335,13 +335,36 @@ def run_check(prop, tier, replay=None):
     samples = []
     exhaustive = getattr(mod, "EXHAUSTIVE", {})
 
-    if cases and model_available:
-        impl_res = run_impl(prop, cases, per_case_timeout=getattr(mod, "CASE_TIMEOUT", 5))
+    # the generated stream is evaluated in batches so that the thorough tier can be large without holding it in memory
+    BATCH = int(os.environ.get("VERIF_BATCH", "150000"))
+    findings = [f for f in load_findings() if f["property"] == prop and f["status"] == "finding"]
+    fresh = []
+    n_disagree = 0
+    fresh_overflow = 0
+    history_of = {}          # id(case) -> preceding cases of the same batch (for history-dependent replays)
+    sample_pool = []
+    coq_pool = []
+    total_cases = 0
+
+    def batches():
+        first = list(cases)
+        it = iter(()) if replay else gen_iter
+        cur = first
+        for c in it:
+            cur.append(c)
+            if len(cur) >= BATCH:
+                yield cur
+                cur = []
+        if cur:
+            yield cur
+    for batch in (batches() if model_available else []):
+        total_cases += len(batch)
+        impl_res = run_impl(prop, batch, per_case_timeout=getattr(mod, "CASE_TIMEOUT", 5))
         if hasattr(mod, "model_cases"):
-            model_res = mod.model_cases(cases, impl_res, run_model)
+            model_res = mod.model_cases(batch, impl_res, run_model)
         else:
-            model_res = run_model([mod.model_line(c) for c in cases])
-        for c, ir, mr in zip(cases, impl_res, model_res):
+            model_res = run_model([mod.model_line(c) for c in batch])
+        for k, (c, ir, mr) in enumerate(zip(batch, impl_res, model_res)):
             if isinstance(ir, dict) and "skipped" in ir and len(ir) == 1:
                 stats["outcomes"]["skipped-after-timeouts"] = stats["outcomes"].get("skipped-after-timeouts", 0) + 1
                 continue
@@ -351,18 +374,31 @@ def run_check(prop, tier, replay=None):
             oc = mod.outcome(c, ir, mr)
             stats["outcomes"][oc] = stats["outcomes"].get(oc, 0) + 1
             if mod.nontrivial(c, ir, mr):
-                nontrivial.add(case_key({k: v for k, v in c.items() if k != "stream"}))
+                nontrivial.add(case_key({k2: v for k2, v in c.items() if k2 != "stream"}))
             verdict = mod.judge(c, ir, mr)      # None | dict(kind=..., why=...)
             if verdict is not None:
-                disagreements.append((c, ir, mr, verdict))
-        step = max(1, len(cases) // 4)
-        samples = [{"input": c, "impl": ir, "model": mr} for c, ir, mr in list(zip(cases, impl_res, model_res))[::step][:5]]
+                n_disagree += 1
+                fid = mod.classify(c, ir, mr, verdict, findings) if hasattr(mod, "classify") else None
+                if fid:
+                    known_hits[fid] = known_hits.get(fid, 0) + 1
+                elif len(fresh) < 300:
+                    fresh.append((c, ir, mr, verdict))
+                    history_of[id(c)] = batch[max(0, k - 40):k]
+                else:
+                    fresh_overflow += 1
+        step = max(1, len(batch) // 3)
+        sample_pool += [{"input": c, "impl": ir, "model": mr} for c, ir, mr in list(zip(batch, impl_res, model_res))[::step][:3]]
+        if tier == "thorough" and hasattr(mod, "coq_case") and len(coq_pool) < 4000:
+            stepc = max(1, len(batch) // 1500)
+            coq_pool += list(zip(batch, model_res))[::stepc]
+    samples = sample_pool[:6]
+    cases_seen = total_cases
 
     # thorough tier: re-evaluate a shard of the cases INSIDE Coq (vm_compute) against the extracted code's answers,
     # so that extraction and the OCaml driver are themselves cross-checked
     coq_shard = None
-    if tier == "thorough" and hasattr(mod, "coq_case") and cases and model_available and not replay:
-        coq_shard = coq_cross_check(prop, mod, cases, model_res)
+    if tier == "thorough" and hasattr(mod, "coq_case") and coq_pool and model_available and not replay:
+        coq_shard = coq_cross_check(prop, mod, [c for c, _ in coq_pool], [m for _, m in coq_pool])
         if coq_shard["mismatch"]:
             path = VERIF / "replays" / ("%s-%d-extraction.json" % (prop, seed))
             json.dump({"property": prop, "broken": "extracted code disagrees with vm_compute on the same cases", "detail": coq_shard}, open(path, "w"), indent=1)
@@ -370,16 +406,6 @@ def run_check(prop, tier, replay=None):
 
     # classify disagreements
     (VERIF / "replays").mkdir(exist_ok=True)
-    findings = [f for f in load_findings() if f["property"] == prop and f["status"] == "finding"]
-    fresh = []
-    for c, ir, mr, verdict in disagreements:
-        fid = None
-        if hasattr(mod, "classify"):
-            fid = mod.classify(c, ir, mr, verdict, findings)
-        if fid:
-            known_hits[fid] = known_hits.get(fid, 0) + 1
-        else:
-            fresh.append((c, ir, mr, verdict))
     for f in findings:
         if f["id"] in known_hits:
             print("KNOWN-FINDING: property=%s %s %s (%d cases this run)" % (prop, f["id"], f["what_fails"], known_hits[f["id"]]))
@@ -400,9 +426,7 @@ def run_check(prop, tier, replay=None):
             alone = run_impl(prop, [c], jobs=1, per_case_timeout=getattr(mod, "CASE_TIMEOUT", 5))
             m_alone = mod.model_cases([c], alone, run_model) if hasattr(mod, "model_cases") else run_model([mod.model_line(c)])
             if mod.judge(c, alone[0], m_alone[0]) is None:
-                idx = next((i for i, x in enumerate(cases) if x is c), None)
-                if idx is not None:
-                    history = cases[max(0, idx - 40):idx]
+                history = history_of.get(id(c)) or None
             elif hasattr(mod, "shrink"):
                 c, ir, mr, verdict = shrink_case(prop, mod, c, ir, mr, verdict)
         path = VERIF / "replays" / (("%s-replayed-%d.json" % (prop, k)) if replay else ("%s-%d-%d.json" % (prop, seed, k)))
@@ -422,7 +446,7 @@ def run_check(prop, tier, replay=None):
         json.dump({"property": prop, "broken": proof.get("broken", "?"), "file": proof.get("file"), "log_tail": proof.get("log", "")[-2000:],
                    "searched": {"cases": n_eval, "streams": stats["streams"]}}, open(path, "w"), indent=1)
         violations.append(("proof obligation no longer checks: %s" % proof.get("broken"), str(path), True))
-    if cases and not model_available:
+    if cases_seen == 0 and not model_available:
         path = VERIF / "replays" / ("%s-%d-build.json" % (prop, seed))
         json.dump({"property": prop, "broken": "model could not be built", "log_tail": blog[-2000:]}, open(path, "w"), indent=1)
         violations.append(("model build broken", str(path), True))
@@ -444,7 +468,7 @@ def run_check(prop, tier, replay=None):
         "evaluations": n_eval, "distinct_nontrivial": len(nontrivial),
         "rule": getattr(mod, "RULE", ""), "samples": samples,
         "streams": stats["streams"], "outcomes": stats["outcomes"],
-        "disagreements_checked": len(disagreements), "known_findings_hit": known_hits,
+        "disagreements_checked": n_disagree, "known_findings_hit": known_hits,
         "exhaustive": False, "exhaustive_subdomains": exhaustive if isinstance(exhaustive, (dict, list)) else {},
         "proof_ok": proof["ok"],
         "in_coq_cross_check_of_extraction": coq_shard,
@@ -456,7 +480,7 @@ def run_check(prop, tier, replay=None):
     (VERIF / "evidence").mkdir(exist_ok=True)
     json.dump(ev, open(VERIF / "evidence" / (prop + ".json"), "w"), indent=1)
     log("[%s %s] proof_ok=%s obligations=%d/%d cases=%d nontrivial=%d disagreements=%d violations=%d known=%s %.1fs" % (
-        prop, tier, proof["ok"], proof["discharged"], proof["obligations"], n_eval, len(nontrivial), len(disagreements), len(violations), known_hits, time.time() - t0))
+        prop, tier, proof["ok"], proof["discharged"], proof["obligations"], n_eval, len(nontrivial), n_disagree, len(violations), known_hits, time.time() - t0))
     log("  outcomes: %s" % json.dumps(stats["outcomes"], sort_keys=True))
     return 1 if violations else 0
 
